@@ -32,7 +32,7 @@ CHECKS = {
         note="Trusted: numpy linear algebra, icontract. Ill-conditioned centre-of-mass inputs (circular resultant < 1e-6) are counted and skipped.",
         ref="DESIGN.md §6 C20"),
     "C05": dict(
-        technique="runtime postcondition on SymmetryAnalyzer.get_conventional_system (in situ in every symmetry workload) vs independent spglib search, standardized lattice and a proper-congruence checker over the lattice point group",
+        technique="runtime postcondition on SymmetryAnalyzer.get_conventional_system (in situ in every symmetry workload) vs independent spglib search, standardized lattice and a proper-congruence checker over the lattice point group; analyzer call histories (fresh / reused through set_system / two analyzers interleaved / input object derived from an analysed one, random first getter)",
         text="Crystals of all 230 groups (general and special positions from an affine-subspace sampler that does not use MatID's tables) are analysed in several presentations; each returned conventional cell is re-analysed independently and matched against the idealized standardized input by enumerating lattice isometries, which decides 'same crystal up to a proper motion' and so detects mirror images of chiral crystals.",
         note="Trusted: spglib 2.7, ASE space-group tables (generation only), numpy. Ill-conditioned samples are discarded by a stated rule and counted.",
         ref="DESIGN.md §5, §6 C05"),
